@@ -5,6 +5,7 @@ package main
 
 import (
 	"bytes"
+	"math"
 	"errors"
 	"fmt"
 	"runtime/debug"
@@ -58,6 +59,8 @@ func (p Pred) Coq() string {
 		return fmt.Sprintf("(PSigned %s (%d)%%Z)", cmp, p.K)
 	case "unsigned":
 		return fmt.Sprintf("(PUnsigned %s %d)", cmp, uint64(p.K))
+	case "float":
+		return fmt.Sprintf("(PFloat %s (%d)%%Z)", cmp, p.K)
 	case "streq":
 		return "(PStrEq " + coqBytes(p.S) + ")"
 	case "lengt":
@@ -92,6 +95,8 @@ func (p Pred) EvalReader(r column.Reader) bool {
 		return cmpI(p.Cmp, int64(r.Int()), p.K)
 	case "unsigned":
 		return cmpU(p.Cmp, uint64(r.Uint()), uint64(p.K))
+	case "float":
+		return cmpF(p.Cmp, r.Float(), float64(p.K))
 	case "streq":
 		return r.String() == string(p.S)
 	case "lengt":
@@ -100,9 +105,21 @@ func (p Pred) EvalReader(r column.Reader) bool {
 	return true
 }
 
+func cmpF(c string, a, b float64) bool {
+	switch c {
+	case "lt":
+		return a < b
+	case "ge":
+		return a >= b
+	}
+	return a == b
+}
+
 func randPred(r *Rng, k Kind) Pred {
 	cmps := []string{"lt", "ge", "eq"}
 	switch {
+	case k.IntFloat():
+		return Pred{Kind: "float", Cmp: cmps[r.Intn(3)], K: int64(r.Intn(120)) - 30}
 	case k == KBool:
 		return Pred{Kind: "true"}
 	case k.Stringy():
@@ -1144,6 +1161,11 @@ func valOfAny(k Kind, v interface{}) Val {
 
 func (p Pred) EvalVal(v Val) bool {
 	switch p.Kind {
+	case "float":
+		if v.W == 4 {
+			return cmpF(p.Cmp, float64(math.Float32frombits(uint32(v.N))), float64(p.K))
+		}
+		return cmpF(p.Cmp, math.Float64frombits(v.N), float64(p.K))
 	case "signed":
 		var s int64
 		switch v.W {
@@ -1169,6 +1191,20 @@ func (g *txnGen) applyPred(txn *column.Txn, col Col, p Pred) {
 	w := col.K.Width()
 	mk := func(n uint64) Val { return Val{W: w, N: n} }
 	switch {
+	case col.K.IntFloat():
+		if g.w.rng.Bool() {
+			txn.WithFloat(col.Name, func(v float64) bool { return cmpF(p.Cmp, v, float64(p.K)) })
+		} else {
+			txn.WithValue(col.Name, func(v interface{}) bool {
+				switch x := v.(type) {
+				case float32:
+					return cmpF(p.Cmp, float64(x), float64(p.K))
+				case float64:
+					return cmpF(p.Cmp, x, float64(p.K))
+				}
+				return false
+			})
+		}
 	case col.K.Float() || col.K == KBool || col.K == KRec || col.K == KRecCat:
 		if col.K.Float() {
 			// compare the bit pattern, as the index rule does through Uint()
@@ -1276,11 +1312,68 @@ func (g *txnGen) doTerminal(txn *column.Txn) {
 	}
 }
 
+// doFloatAggregate: Sum / Min / Max / Avg of a float column that holds small integers (exact in
+// floating point).  Sum, Min, Max are recorded as bit patterns for the model; Avg is compared with
+// Sum / Count of the same selection here (the quotient is not an integer).
+func (g *txnGen) doFloatAggregate(txn *column.Txn, col Col) {
+	var sum, min, max, avg float64
+	var okMin, okMax bool
+	bits := func(x float64) uint64 {
+		if col.K == KF32I {
+			return uint64(math.Float32bits(float32(x)))
+		}
+		return math.Float64bits(x)
+	}
+	n := 0
+	if col.K == KF32I {
+		rd := txn.Float32(col.Name)
+		s := rd.Sum()
+		mn, o1 := rd.Min()
+		mx, o2 := rd.Max()
+		sum, min, max, okMin, okMax, avg = float64(s), float64(mn), float64(mx), o1, o2, float64(rd.Avg())
+		txn.Range(func(uint32) {
+			if _, ok := rd.Get(); ok {
+				n++
+			}
+		})
+	} else {
+		rd := txn.Float64(col.Name)
+		s := rd.Sum()
+		mn, o1 := rd.Min()
+		mx, o2 := rd.Max()
+		sum, min, max, okMin, okMax, avg = s, mn, mx, o1, o2, rd.Avg()
+		txn.Range(func(uint32) {
+			if _, ok := rd.Get(); ok {
+				n++
+			}
+		})
+	}
+	if n > 0 {
+		if want := sum / float64(n); math.Abs(avg-want) > 1e-6*(1+math.Abs(want)) {
+			g.w.notes = append(g.w.notes, fmt.Sprintf("Avg: column %s Avg() = %v but Sum()/valued rows = %v/%d", col.Name, avg, sum, n))
+		}
+	}
+	switch g.w.rng.Intn(3) {
+	case 0:
+		g.stmt("fsum", fmt.Sprintf("STerm (TFSum %d)", col.ID), fmt.Sprintf("RNum %d true", bits(sum)))
+	case 1:
+		if !okMin {
+			min = 0
+		}
+		g.stmt("fmin", fmt.Sprintf("STerm (TFMin %d)", col.ID), fmt.Sprintf("RNum %d %v", bits(min), okMin))
+	default:
+		if !okMax {
+			max = 0
+		}
+		g.stmt("fmax", fmt.Sprintf("STerm (TFMax %d)", col.ID), fmt.Sprintf("RNum %d %v", bits(max), okMax))
+	}
+}
+
 func (g *txnGen) doAggregate(txn *column.Txn) {
 	w := g.w
 	var nums []Col
 	for _, c := range w.cols {
-		if c.K.Numeric() && !c.K.Float() {
+		if c.K.Numeric() && (!c.K.Float() || c.K.IntFloat()) {
 			nums = append(nums, c)
 		}
 	}
@@ -1288,6 +1381,10 @@ func (g *txnGen) doAggregate(txn *column.Txn) {
 		return
 	}
 	col := nums[w.rng.Intn(len(nums))]
+	if col.K.IntFloat() {
+		g.doFloatAggregate(txn, col)
+		return
+	}
 	sum, min, max, okMin, okMax := aggregate(txn, col)
 	switch w.rng.Intn(3) {
 	case 0:
